@@ -845,14 +845,16 @@ static void gen_expr(Node *node) {
       // The mask may not fit in a 32-bit immediate, so it is loaded
       // into a register first.
       println("  mov %%rax, %%rdi");
-      println("  mov $%ld, %%r9", (1L << mem->bit_width) - 1);
+      // (A shift by the full width of long is undefined in C.)
+      long low = mem->bit_width == 64 ? -1L : (1L << mem->bit_width) - 1;
+      println("  mov $%ld, %%r9", low);
       println("  and %%r9, %%rdi");
       println("  shl $%d, %%rdi", mem->bit_offset);
 
       println("  mov (%%rsp), %%rax");
       load(mem->ty);
 
-      long mask = ((1L << mem->bit_width) - 1) << mem->bit_offset;
+      long mask = low << mem->bit_offset;
       println("  mov $%ld, %%r9", ~mask);
       println("  and %%r9, %%rax");
       println("  or %%rdi, %%rax");
